@@ -204,6 +204,7 @@ func runCheck(prop, tier, repo, verif string, verbose, writeEv bool) int {
 	dischargeAll(normal, runtime.NumCPU(), qt, st, all)
 	dischargeAll(expectedFail, runtime.NumCPU(), 4*time.Second, 4*time.Second, false)
 	secondChance(normal, qt, st)
+	boundedTier = tier
 	run.obls = append(run.obls, boundedObligations(verif, repo, prop)...)
 	if tier == "thorough" {
 		run.vacuity = vacuityCorpus(verif, repo, prop)
